@@ -488,23 +488,10 @@ Qed.
 Lemma libcore_ranked cfg : lib_ranked (libcore cfg) (fun _ => O).
 Proof. intros name cb cb' _ args w. reflexivity. Qed.
 
-(* ---- why the statement is not "some fuel gives an answer other than OFuel": a = arrayNew() ; arrayPush(a, a) ; return a == a
-   answers OFuel for EVERY fuel - it is the deep comparison (vcompare's own fuel, a cyclic array), not the interpreter ---- *)
-Definition cyc_prog : script :=
-  [ SExpr (Some (U "a")) (ECall (U "arrayNew") []);
-    SExpr None (ECall (U "arrayPush") [EVar (U "a"); EVar (U "a")]);
-    SReturn (Some (EBin (U "==") (EVar (U "a")) (EVar (U "a")))) ].
-Definition cyc_cfg : config := mkcfg 100 false true.
-
-Lemma cyc_always_fuel : forall fuel, fst (execute_script cyc_cfg (libcore cyc_cfg) no_url no_lint fuel cyc_prog (world0 [])) = OFuel.
-Proof.
-  intros fuel. do 6 (destruct fuel as [|fuel]; [vm_compute; reflexivity|]). vm_compute. reflexivity.
-Qed.
-
-(* ... and that OFuel does not come from the tower: with 6 or more units of fuel every tower gives it, whatever its depth-0 answer *)
-Lemma cyc_not_from_tower : forall bot fuel,
-  fst (execute_script_bot cyc_cfg (libcore cyc_cfg) no_url no_lint bot (6 + fuel) cyc_prog (world0 [])) = OFuel.
-Proof. intros bot fuel. vm_compute. reflexivity. Qed.
+(* (an earlier version of the model reported the comparison of a value that contains itself as OFuel; since the repair F29 the
+   operator handler contains the RecursionError and the model answers null, so the cyclic-compare refutation of the designed shape
+   "some fuel gives an answer other than OFuel" is gone: what remains between the theorem below and that shape is a library that
+   answers LFuel by itself, e.g. the fuelled deep equality of the lifted arrayIndexOf on cyclic values) *)
 
 (* ---- the budget at work: `L: jump L` (while true) and unbounded recursion stop with the budget error, whatever the fuel
    beyond a bound and whatever the depth-0 answer ---- *)
